@@ -363,7 +363,16 @@ func (r *scriptReader) Read(p []byte) (int, error) {
 		return 0, nil
 	}
 	n := 1 << 30
-	if len(r.sizes) > 0 {
+	if len(r.sizes) > 0 && r.sizes[0] < 0 {
+		// absolute stops (-sizes[i] are positions where a read must end: a producer that flushes
+		// there), whatever buffer sizes the consumer offers
+		for _, s := range r.sizes {
+			if -s > r.pos {
+				n = -s - r.pos
+				break
+			}
+		}
+	} else if len(r.sizes) > 0 {
 		n = r.sizes[r.k%len(r.sizes)]
 		r.k++
 	}
@@ -374,4 +383,21 @@ func (r *scriptReader) Read(p []byte) (int, error) {
 		r.log(n)
 	}
 	return n, nil
+}
+
+
+// flushStops: a chunk schedule in which every read ends exactly at the end of a document (every
+// `every`-th one): the producer flushes after a document and sends the separating newline with
+// the next one. Encoded as negative absolute positions for scriptReader.
+func flushStops(ends []int64, every int) []int {
+	var out []int
+	for i, e := range ends {
+		if e > 0 && i%every == every-1 {
+			out = append(out, -int(e))
+		}
+	}
+	if len(out) == 0 {
+		return nil
+	}
+	return out
 }
